@@ -8,7 +8,7 @@ use bio_seq::prelude::*;
 use bio_seq::translation::{TranslationTable, STANDARD};
 
 harnesses! {
-    fn c13_q_codon_any_offset [4] {
+    fn c13_q_codon_any_offset [10] {
         // all 64 codons x all 94 codon positions of a 3-word buffer (every in-word
         // offset and both word-straddling positions) in one query
         let w = any_words::<3>();
@@ -24,7 +24,7 @@ harnesses! {
         reach!(amino.to_char() == '*', "stop codon");
         reach!(amino.to_char() == 'W', "tryptophan");
     }
-    fn c13_q_windows3 [8] {
+    fn c13_q_windows3 [10] {
         // translating by windows(3): the j-th amino acid is the translation of triplet j..j+3
         let w = any_words::<2>();
         let s = arr::<Dna, 64, 2>(w);
@@ -44,7 +44,7 @@ harnesses! {
         assert!(it.next().is_none(), "C13.windows.terminates");
         reach!(o == 29, "straddle");
     }
-    fn c13_q_chunks3 [8] {
+    fn c13_q_chunks3 [10] {
         let w = any_words::<2>();
         let s = arr::<Dna, 64, 2>(w);
         let o = any_usize();
@@ -63,7 +63,7 @@ harnesses! {
         assert!(it.next().is_none(), "C13.chunks.terminates");
         reach!(o == 28, "straddle");
     }
-    fn c13_q_wrong_length_xp [4] {
+    fn c13_q_wrong_length_xp [10] {
         let w = any_words::<2>();
         let s = arr::<Dna, 64, 2>(w);
         let (a, n) = (any_usize(), any_usize());
@@ -72,7 +72,7 @@ harnesses! {
         let _ = STANDARD.to_amino(&s[a..a + n]);
         must_not_return!("C13.wrong_length_translated");
     }
-    fn c13_q_to_codon_is_ambiguous [4] {
+    fn c13_q_to_codon_is_ambiguous [10] {
         // documented: no DNA reverse translation in the standard table
         let b = any_u8();
         let x = Amino::try_from_bits(b);
